@@ -1,4 +1,4 @@
-CONSTANTS FailureThreshold = 5  SuccessThreshold = 2  HalfOpenRequests = 3  OpenDuration = 600  Ticks = {3, 601}  MaxLen = 0
+CONSTANTS FailureThreshold = 5  SuccessThreshold = 2  HalfOpenRequests = 3  OpenDuration = 600  Ticks = {3, 601}  MaxLen = 0  Races = ${Races}
 CONSTANTS ReachLen = ${ReachLen}  SufLen = ${SufLen}
 SPECIFICATION GSpec
 VIEW GView
